@@ -265,8 +265,20 @@ func (c *cfgFloat) cpy(ctx context) value                   { return newFloat(ct
 func (c *cfgFloat) toFloat(*options) (float64, error)       { return c.f, nil }
 func (c *cfgFloat) reflect(*options) (reflect.Value, error) { return reflect.ValueOf(c.f), nil }
 func (c *cfgFloat) reify(*options) (interface{}, error)     { return c.f, nil }
-func (c *cfgFloat) toString(*options) (string, error)       { return fmt.Sprintf("%v", c.f), nil }
 func (c *cfgFloat) typ(*options) (typeInfo, error)          { return typeInfo{"float", tFloat64}, nil }
+
+// toString renders a whole number without an exponent. The JSON and HJSON
+// decoders deliver every number as float64: an integer setting must read the
+// same ("1000000", not "1e+06") as when the YAML decoder delivers it as int.
+func (c *cfgFloat) toString(*options) (string, error) {
+	if c.f == math.Trunc(c.f) && math.Abs(c.f) < 1<<64 {
+		if c.f == 0 {
+			return "0", nil
+		}
+		return strconv.FormatFloat(c.f, 'f', 0, 64), nil
+	}
+	return fmt.Sprintf("%v", c.f), nil
+}
 
 func (c *cfgFloat) toUint(*options) (uint64, error) {
 	if c.f < 0 {
